@@ -36,11 +36,22 @@ std::string prop_generate(Tape & t, int size) {
     if (pat.kind == "blocks" || pat.kind == "spike" || pat.kind == "spike2") pat.p1 = spd;            // constant runs aligned with the storage blocks
     if (small && t.chance(1, 3)) pat.p1 = spd * 2;
     std::vector<uint32_t> parts = gen_partition(t, total, sd.spd, 20);
+    // <= 8-bit class, one case in three: a companion signal 2 with the same definition, first sample id and block grid but other
+    // constants, written interleaved.  The reads then alternate between the two signals on one reader, so that whatever the reader
+    // caches per level-1 chunk (index, summary) is keyed by equal timestamps of two different signals (seeded/C15d).
+    bool companion = small && t.chance(1, 3);
+    Pattern pat2;
+    if (companion) {
+        Op def2 = def; def2.id = 2; p.ops.push_back(def2);
+        pat2 = gen_pattern(t, *dt, {"blocks", "blocks", "const", "spike2"}, sd.spd);
+        pat2.p1 = spd;
+    }
     int64_t written = 0;
     for (auto n : parts) {
         if (t.chance(1, 3)) { Op o; o.op = "omit"; o.sig = 1; o.enable = (int) t.weighted({1, 2}); p.ops.push_back(o); }
         Op o; o.op = "fsr"; o.sig = 1; o.sample_id = first + written; o.n = n; o.pat = pat; o.poff = written; o.junk = t.chance(1, 4);
         p.ops.push_back(o);
+        if (companion) { Op o2 = o; o2.sig = 2; o2.pat = pat2; p.ops.push_back(o2); }
         written += n;
     }
     mj::Value c = mj::Value::object();
@@ -124,6 +135,8 @@ CaseOutcome prop_execute(const std::string & case_json) {
     Reader r1, r2;
     if (oc.ok && (r1.open("c15_plain.jls") || r2.open("c15_omit.jls"))) oc.fail("open", "reader open failed");
     bool touched_omitted = false;
+    const bool has_companion = m.sigs.count(2) && m.sigs.at(2).length() == s.length() && dt.bits <= 8;
+    long companion_reads = 0;
     if (oc.ok) {
         int64_t l1 = -1, l2 = -1;
         jls_rd_fsr_length(r1.rd, (uint16_t) sig, &l1); jls_rd_fsr_length(r2.rd, (uint16_t) sig, &l2);
@@ -147,6 +160,17 @@ CaseOutcome prop_execute(const std::string & case_json) {
             int64_t n = (q == 0) ? len : (int64_t) ((rs >> 40) % (uint64_t) (spd * 2 + 2)) + 1;
             if (n > len - start) n = len - start;
             std::vector<uint8_t> g1, g2;
+            if (has_companion && (rs & 1)) {
+                // the same reader serves the companion signal first (same block grid, other constants)
+                std::vector<uint8_t> gc;
+                int32_t rcc = read_window(r2.rd, 2, dt, start, n, gc);
+                if (rcc) { oc.fail("read", strf("companion signal: read(%lld,%lld) returns %d", (long long) start, (long long) n, rcc)); break; }
+                std::vector<uint8_t> wantc = m.sigs.at(2).samples.window(start, n);
+                int64_t badc = compare_window(dt, gc, wantc, n);
+                if (badc >= 0) { oc.fail("omitted_block_samples", strf("omit run (%s, spd %lld), companion signal 2 read in alternation with signal 1 on one reader: sample %lld reads 0x%llx, written 0x%llx", dt.name, (long long) spd,
+                                                                         (long long) (start + badc), (unsigned long long) window_sample(dt, gc, badc), (unsigned long long) window_sample(dt, wantc, badc))); break; }
+                ++companion_reads;
+            }
             int32_t rc1 = read_window(r1.rd, sig, dt, start, n, g1), rc2 = read_window(r2.rd, sig, dt, start, n, g2);
             if (rc1 || rc2) { oc.fail("read", strf("read(%lld,%lld) returns %d plain / %d with omission", (long long) start, (long long) n, rc1, rc2)); break; }
             std::vector<uint8_t> want = s.samples.window(start, n);
@@ -178,6 +202,7 @@ CaseOutcome prop_execute(const std::string & case_json) {
     }
     r1.close(); r2.close();
     oc.nontrivial = !omitted_blocks.empty() && touched_omitted;
+    if (has_companion) { oc.tags.push_back("companion_signal"); oc.counters.push_back({"companion_reads_interleaved", companion_reads}); }
     oc.tags.push_back(omitted_blocks.empty() ? "omitted:0" : omitted_blocks.size() < 3 ? "omitted:1-2" : "omitted:3+");
     vfs::reset();
     return oc;
